@@ -1013,6 +1013,19 @@ def creation_cases(rnd, n, prefix="C"):
         out.append(mkcase(f"{prefix}-nullfill-{k}", {}, f"out = ndx.full({sh!r}, {fill})",
                           f"out = np.ma.masked_array(np.full({sh!r}, {pay}, dtype=np.{npd}), mask=np.ones({sh!r}, dtype=bool))", meta, rnd))
 
+    # asarray of Python sequences whose elements are NumPy scalars / rows: the dtype is the elements' own dtype
+    for k in range(max(6, n // 20)):
+        npd = rnd.choice(["int8", "int16", "int32", "uint8", "uint16", "float32", "int64", "bool"])
+        vals = {"bool": ["True", "False"], "float32": ["1.5", "-2.0", "0.25"]}.get(npd, ["1", "2", "3"] if npd.startswith("u") else ["1", "-2", "3"])
+        form = rnd.choice(["[{e}]", "({e},)", "[[{e}], [{e}]]"])
+        elems = ", ".join(f"np.{npd if npd != 'bool' else 'bool_'}({rnd.choice(vals)})" for _ in range(rnd.randint(1, 3)))
+        if rnd.random() < 0.3:
+            lit = f"[np.array([{', '.join(vals[:2])}], dtype=np.{npd if npd != 'bool' else 'bool_'}), np.array([{', '.join(vals[:2])}], dtype=np.{npd if npd != 'bool' else 'bool_'})]"
+        else:
+            lit = form.replace("{e}", elems)
+        meta = {"func": "asarray", "dtype": npd, "dclass": dclass(npd), "source": "sequence-of-numpy-scalars"}
+        out.append(mkcase(f"{prefix}-seq-{k}", {}, f"out = ndx.asarray({lit})", f"out = np.asarray({lit})", meta, rnd))
+
     return out
 
 
